@@ -42,9 +42,11 @@ MANIFEST = {
                   "targets bound by a 3-entry table, substr uses reviewed by hand); the driver's hand model of which primitive an input reaches "
                   "(state-dependent parts - cached manifest, chunk held - are taken from the harness's observation as validated hints); harness, "
                   "g++/libstdc++. Holds on the tree with the five fixes/C35-*.patch applied (reconstruction failure -> nullopt, FETCH OUT path, "
-                  "catch at the control accept loop, catch at the session handler calls, receive timeout before the peer id). Known finding "
-                  "C35-K1 (reported as KNOWN-FINDING by the real-thread probe on every run; Lean: C35_counterexample / C35_partial): the control "
-                  "accept thread serves clients serially with unbounded blocking reads, so a silent control client delays every other one.",
+                  "catch at the control accept loop, catch at the session handler calls, receive timeout before the peer id) and "
+                  "fixes/C35-control-client-io-timeout.patch (SO_RCVTIMEO/SO_SNDTIMEO on accepted control clients). 'Stops serving others' by a "
+                  "stalling client is covered by accept_threads_bounded / next_client_served over three timeout flags regenerated from the source "
+                  "and observed by the real-thread probe `rt stall` on every run (silent client and never-reading client ahead of a well-behaved "
+                  "one); within the timeout the serial accept loops still delay the others (k x (T + B) bound), which is what the code intends.",
     "technique": "Lean 4 proof over a call tree regenerated from the clang AST (kernel-checked fixpoint + soundness lemma) + in-process "
                  "differential correspondence through the real thread functions under ASan/UBSan + real-thread loopback runs",
 }
@@ -474,7 +476,8 @@ def generate(ctx, budget):
     rng = ctx.rng
     big = ctx.tier == "thorough"
     cases = [case_known(rng, w) for w in KNOWN]
-    # real accept threads on loopback, one silent client ahead of a well-behaved one (known finding C35-K1 lives here)
+    # real accept threads on loopback: a silent / never-reading client ahead of a well-behaved one (~4 s of real time:
+    # kHandshakeTimeout is a compile-time 2 s; the control timeout is shortened to 300 ms through the Impl member)
     cases.append(Case(ops=["rt stall"], tag="real-threads:stall"))
     for i in range(budget):
         r = i % 10
